@@ -152,6 +152,11 @@ fn label_code(l: &str) -> u64 {
 }
 
 struct Cfg15 {
+    /// probe of the append window: park also at persist:append:after_wal and force the schedule that
+    /// sends another append into the window. With the fix that append blocks on the shard map lock
+    /// (the execution is abandoned after a short timeout and yields no case); without it the window
+    /// is entered and the case shows the lost write.
+    probe: bool,
     fx: bool,
     name: String,
     bsz: usize,
@@ -221,7 +226,15 @@ fn run_one(cfg: &Cfg15, choose: &mut dyn FnMut(usize, &[usize]) -> usize) -> Exe
         .and_then(|r| r);
         crash2.lock().unwrap().push(r);
     };
-    let outcome = run_execution(bodies, if cfg.fx { parks } else { parks_unfixed }, None, &enabled, choose, &mut after, Duration::from_secs(30));
+    let outcome = run_execution(
+        bodies,
+        if cfg.fx && !cfg.probe { parks } else { parks_unfixed },
+        None,
+        &enabled,
+        choose,
+        &mut after,
+        if cfg.probe { Duration::from_millis(2500) } else { Duration::from_secs(30) },
+    );
     let fin = facts_of(&eng).unwrap_or_default();
     let results: Vec<Vec<(u64, Res)>> = results.iter().map(|r| r.lock().unwrap().clone()).collect();
     let crash = crash.lock().unwrap().clone();
@@ -367,6 +380,19 @@ fn interleavings(progs: &[Vec<Op>]) -> f64 {
 
 fn run_cfg(cfg: &Cfg15) -> Vec<CaseOut> {
     let mut outs = vec![];
+    if cfg.probe {
+        // T1 draws its time; T0 draws its time and logs (parks at persist:append:after_wal);
+        // T1 logs, pushes, flushes; T0 pushes; both finish
+        let prefix = [1usize, 0, 0, 1, 1, 1, 1, 1, 0, 0, 0, 1];
+        let ex = {
+            let mut ch = prefix_chooser(&prefix);
+            run_one(cfg, &mut ch)
+        };
+        let mut c = emit(cfg, &ex);
+        c.tags.push("append-window-probe".into());
+        outs.push(c);
+        return outs;
+    }
     if cfg.exhaustive {
         let mut prefix: Vec<usize> = vec![];
         while outs.len() < cfg.budget {
@@ -407,16 +433,19 @@ fn corpus(chunks: usize, fx: bool) -> Vec<Cfg15> {
     let del = |id, s, ts: &[u64]| Op::Del { id, s, ts: ts.to_vec() };
     let mut v = vec![];
     // (a) one tuple, insert vs delete: logical time order vs apply order (enumerated: 252 schedules)
-    v.push(Cfg15 { fx, name: "insert-vs-delete-same-tuple".into(), bsz: 0, progs: vec![vec![ins(1, 0, &[5])], vec![del(2, 0, &[5])]], exhaustive: true, budget: 300, seed: 0 });
+    v.push(Cfg15 { probe: false, fx, name: "insert-vs-delete-same-tuple".into(), bsz: 0, progs: vec![vec![ins(1, 0, &[5])], vec![del(2, 0, &[5])]], exhaustive: true, budget: 300, seed: 0 });
+    if fx {
+        v.push(Cfg15 { probe: true, fx, name: "append-window-probe".into(), bsz: 2, progs: vec![vec![ins(1, 0, &[1])], vec![ins(2, 0, &[2, 3])]], exhaustive: true, budget: 1, seed: 0 });
+    }
     for c in 0..chunks {
         // (b) append window vs explicit save
-        v.push(Cfg15 { fx, name: format!("append-vs-save-{c}"), bsz: 0, progs: vec![vec![ins(1, 0, &[1, 2])], vec![ins(2, 0, &[3]), Op::Flush { id: 3, s: 0 }]], exhaustive: false, budget: 40, seed: 100 + c as u64 });
+        v.push(Cfg15 { probe: false, fx, name: format!("append-vs-save-{c}"), bsz: 0, progs: vec![vec![ins(1, 0, &[1, 2])], vec![ins(2, 0, &[3]), Op::Flush { id: 3, s: 0 }]], exhaustive: false, budget: 40, seed: 100 + c as u64 });
         // (c) append window vs the flush another append triggers (buffer_size 2)
-        v.push(Cfg15 { fx, name: format!("append-vs-autoflush-{c}"), bsz: 2, progs: vec![vec![ins(1, 0, &[1])], vec![ins(2, 0, &[2, 3])]], exhaustive: false, budget: 40, seed: 200 + c as u64 });
+        v.push(Cfg15 { probe: false, fx, name: format!("append-vs-autoflush-{c}"), bsz: 2, progs: vec![vec![ins(1, 0, &[1])], vec![ins(2, 0, &[2, 3])]], exhaustive: false, budget: 40, seed: 200 + c as u64 });
         // (d) two relations, three writers
-        v.push(Cfg15 { fx, name: format!("two-relations-{c}"), bsz: 3, progs: vec![vec![ins(1, 0, &[1, 2])], vec![ins(2, 1, &[1]), del(3, 0, &[2])], vec![del(4, 1, &[1])]], exhaustive: false, budget: 25, seed: 300 + c as u64 });
+        v.push(Cfg15 { probe: false, fx, name: format!("two-relations-{c}"), bsz: 3, progs: vec![vec![ins(1, 0, &[1, 2])], vec![ins(2, 1, &[1]), del(3, 0, &[2])], vec![del(4, 1, &[1])]], exhaustive: false, budget: 25, seed: 300 + c as u64 });
         // (e) compaction against writers
-        v.push(Cfg15 { fx, name: format!("writers-vs-compact-{c}"), bsz: 0, progs: vec![vec![ins(1, 0, &[1]), del(2, 0, &[1])], vec![ins(3, 0, &[1, 4]), Op::Compact { id: 4, s: 0 }]], exhaustive: false, budget: 25, seed: 400 + c as u64 });
+        v.push(Cfg15 { probe: false, fx, name: format!("writers-vs-compact-{c}"), bsz: 0, progs: vec![vec![ins(1, 0, &[1]), del(2, 0, &[1])], vec![ins(3, 0, &[1, 4]), Op::Compact { id: 4, s: 0 }]], exhaustive: false, budget: 25, seed: 400 + c as u64 });
     }
     v
 }
@@ -449,7 +478,7 @@ fn gen_config(rng: &mut Rng, idx: usize, per: usize, fx: bool) -> Cfg15 {
         progs.push(p);
     }
     let exhaustive = interleavings(&progs) <= per as f64;
-    Cfg15 { fx, name: format!("random-{idx}"), bsz, progs, exhaustive, budget: per, seed: rng.next() }
+    Cfg15 { probe: false, fx, name: format!("random-{idx}"), bsz, progs, exhaustive, budget: per, seed: rng.next() }
 }
 
 fn main() {
@@ -493,7 +522,7 @@ fn main() {
         sink.tally(if i < corpus_n { "config:corpus" } else { "config:random" });
         for c in outs {
             if c.infeasible {
-                sink.tally("infeasible-execution-skipped");
+                sink.tally(if c.tags.iter().any(|t| t == "append-window-probe") { "append-window-probe-blocked-as-expected" } else { "infeasible-execution-skipped" });
                 continue;
             }
             sink.tally("executions");
